@@ -68,10 +68,23 @@ def compile_constraint(con):
     return bytes([CNTXT_ITEM, con["item"], len(body)] + body + [POP_RET])
 
 
-def font_model(prog, classes, adv, gattr, rtl, nlinear=None, nfeat=0):
-    """classes: list of lists (as in the spec, glyph ids); adv/gattr: dict or list indexed by gid (0..NG)."""
+GATTR_PASSBITS = 6      # the pass-skip bits glyph attribute (Silf aPassBits), when a font carries one
+
+
+def font_model(prog, classes, adv, gattr, rtl, nlinear=None, nfeat=0, passbits=False):
+    """classes: list of lists (as in the spec, glyph ids); adv/gattr: dict or list indexed by gid (0..NG).
+    passbits: give every glyph the pass-skip attribute the GDL compiler would (bit p set iff no rule of pass p names a
+    class containing the glyph - GdlRef!Mentioned), so that the engine leaves passes out where it may."""
     ng = len(adv) - 1
     glyphs = [{"adv": adv[g], "attrs": ({GATTR_TEST: gattr[g]} if gattr[g] else {})} for g in range(ng + 1)]
+    if passbits:
+        for g in range(ng + 1):
+            bits = 0
+            for pi, p in enumerate(prog[:16]):
+                if not any(g in classes[c - 1] for r in p["rules"] for c in r["ctx"]):
+                    bits |= 1 << pi
+            if bits:
+                glyphs[g]["attrs"][GATTR_PASSBITS] = bits
     passes = []
     for p in prog:
         rules = []
@@ -79,4 +92,5 @@ def font_model(prog, classes, adv, gattr, rtl, nlinear=None, nfeat=0):
             rules.append({"pre": r["pre"], "ctx": [c - 1 for c in r["ctx"]], "con": compile_constraint(r["con"]), "act": compile_action(r)})
         passes.append({"kind": p["kind"], "maxloop": 5, "rules": rules})
     return {"upem": 1000, "rtl": rtl, "nuser": 2, "glyphs": glyphs, "cmap": {97 + g - 1: g for g in range(1, ng + 1)},
-            "classes": [list(c) for c in classes], "nlinear": len(classes) if nlinear is None else nlinear, "passes": passes, "nfeat": nfeat}
+            "classes": [list(c) for c in classes], "nlinear": len(classes) if nlinear is None else nlinear, "passes": passes, "nfeat": nfeat,
+            "apassbits": GATTR_PASSBITS if passbits else 0}
